@@ -243,7 +243,7 @@ func c53RunPoolCase(cfg c53PoolCfg, steps []c53PStep) (fail c53POut, reused, spa
 func TestVerif_C53_Pools(t *testing.T) {
 	r := vk.Start(t, "c53_pools", "exploration", c53P)
 	defer r.Finish()
-	r.Rule(c53P, "every history of <=L (size, action) steps, action in {Get+hold, Get+dirty+Put, Get+dirty+Put shrunk prefix, Put of dirty caller memory}, size in {0,1,2,page-1,page,page+1, every tier-1/+0/+1, largest tier+page, +page+1}, on a fresh pool of every listed configuration (L = 2 quick, where steps above 64 KiB are Get+hold/Get+Put only and are paired only with another such step or with sizes 0/page; L = 3 thorough, 2 for configurations with tiers above 64 KiB); after each Get: len==n, cap>=n, no overlap with buffers still handed out, all bytes zero for zeroing pools. Non-trivial = histories in which a Get was served from memory that had been put back dirty.")
+	r.Rule(c53P, "every history of <=L (size, action) steps, action in {Get+hold, Get+dirty+Put, Get+dirty+Put shrunk prefix, Put of dirty caller memory}, size in {0,1,2,page-1,page,page+1, every tier-1/+0/+1, largest tier+page, +page+1}, on a fresh pool of every listed configuration (L = 2 quick, where steps above 64 KiB are Get+hold/Get+Put only and are paired only with another such step; L = 3 thorough, 2 for configurations with tiers above 64 KiB, where steps above 64 KiB are paired with another such step or with sizes 0/page); after each Get: len==n, cap>=n, no overlap with buffers still handed out, all bytes zero for zeroing pools. Non-trivial = histories in which a Get was served from memory that had been put back dirty.")
 	r.Assume(c53P, "sync.Pool may drop or keep a returned buffer; the verdict does not depend on it, the measured reuse count does")
 	r.Assume(c53P, "only the first len bytes of a Get result are required to be zero; dirty spare capacity is recorded as an outcome")
 	cfgs := c53PoolCfgs()
@@ -272,89 +272,122 @@ func TestVerif_C53_Pools(t *testing.T) {
 	}
 	acts := []string{"hold", "put", "putshrunk", "foreign"}
 	type cfgRes struct {
+		mu                  sync.Mutex
 		evals, reuse, spare int64
 		outcomes            map[string]int64
 		viols               []c53PCase
 		vdesc               []c53POut
+		reported            map[string]bool
 		sizes, L            int
 	}
+	type job struct {
+		ci    int
+		first c53PStep
+		alpha []c53PStep
+	}
+	big := func(s c53PStep) bool { return s.Size > 1<<16 }
+	small := func(s c53PStep) bool { return s.Size == 0 || s.Size == 4096 }
 	results := make([]*cfgRes, len(cfgs))
-	var wg sync.WaitGroup
-	sem := make(chan struct{}, max(1, runtime.GOMAXPROCS(0)))
+	var jobs []job
 	for ci, cfg := range cfgs {
-		ci, cfg := ci, cfg
+		res := &cfgRes{outcomes: map[string]int64{}, reported: map[string]bool{}}
+		results[ci] = res
+		sizes := c53PoolSizes(cfg)
+		res.sizes, res.L = len(sizes), 2
+		if r.Thorough() {
+			res.L = cfg.maxLen
+		}
+		var alpha []c53PStep
+		for _, s := range sizes {
+			for _, a := range acts {
+				if !r.Thorough() && s > 1<<16 && (a == "putshrunk" || a == "foreign") {
+					continue // quick tier: megabyte-sized steps only as Get+hold / Get+dirty+Put
+				}
+				alpha = append(alpha, c53PStep{s, a})
+			}
+		}
+		for _, a := range alpha {
+			jobs = append(jobs, job{ci, a, alpha})
+		}
+	}
+	runJob := func(j job) {
+		cfg, res := cfgs[j.ci], results[j.ci]
+		var evals, reuse, spare int64
+		outcomes := map[string]int64{}
+		idx := 0
+		var rec func(cur []c53PStep)
+		rec = func(cur []c53PStep) {
+			if len(cur) == 2 && (big(cur[0]) || big(cur[1])) {
+				// first-touch of megabytes is what this leg's time goes into: a
+				// megabyte-sized step is paired only with another one (quick) or
+				// additionally with sizes 0 / page (thorough)
+				other := cur[1]
+				if big(cur[1]) {
+					other = cur[0]
+				}
+				if !big(other) && (!r.Thorough() || !small(other)) {
+					return
+				}
+			}
+			idx++
+			if r.Mine(idx) {
+				f, reused, sp := c53RunPoolCase(cfg, cur)
+				evals++
+				if reused > 0 {
+					reuse++
+				}
+				if sp > 0 {
+					spare++
+				}
+				switch {
+				case f.class != "":
+					res.mu.Lock()
+					if !res.reported[f.class] {
+						res.reported[f.class] = true
+						res.viols = append(res.viols, c53PCase{Pool: cfg.name, Steps: append([]c53PStep(nil), cur...)})
+						res.vdesc = append(res.vdesc, f)
+					}
+					res.mu.Unlock()
+				case reused > 0 && cfg.zero:
+					outcomes["pools:dirty-memory-reused-and-handed-out-zeroed"]++
+				case reused > 0:
+					outcomes["pools:dirty-pool-reuse(len/cap only)"]++
+				default:
+					outcomes["pools:fresh-memory"]++
+				}
+			}
+			if len(cur) == res.L {
+				return
+			}
+			for _, a := range j.alpha {
+				rec(append(cur, a))
+			}
+		}
+		rec([]c53PStep{j.first})
+		res.mu.Lock()
+		res.evals += evals
+		res.reuse += reuse
+		res.spare += spare
+		for k, v := range outcomes {
+			res.outcomes[k] += v
+		}
+		res.mu.Unlock()
+	}
+	var wg sync.WaitGroup
+	ch := make(chan job, 64)
+	for w := 0; w < max(1, runtime.GOMAXPROCS(0)); w++ {
 		wg.Add(1)
 		go func() {
 			defer wg.Done()
-			sem <- struct{}{}
-			defer func() { <-sem }()
-			res := &cfgRes{outcomes: map[string]int64{}}
-			results[ci] = res
-			sizes := c53PoolSizes(cfg)
-			L := 2
-			if r.Thorough() {
-				L = cfg.maxLen
+			for j := range ch {
+				runJob(j)
 			}
-			res.sizes, res.L = len(sizes), L
-			var alpha []c53PStep
-			for _, s := range sizes {
-				for _, a := range acts {
-					if !r.Thorough() && s > 1<<16 && (a == "putshrunk" || a == "foreign") {
-						continue // quick tier: megabyte-sized steps only as Get+hold / Get+dirty+Put
-					}
-					alpha = append(alpha, c53PStep{s, a})
-				}
-			}
-			reported := map[string]bool{}
-			idx := 0
-			var rec func(cur []c53PStep)
-			rec = func(cur []c53PStep) {
-				if len(cur) == 2 && !r.Thorough() {
-					// quick tier: a megabyte-sized step is paired only with another
-					// megabyte-sized step or with sizes 0 / page
-					big := func(s c53PStep) bool { return s.Size > 1<<16 }
-					small := func(s c53PStep) bool { return s.Size == 0 || s.Size == 4096 }
-					if (big(cur[0]) && !big(cur[1]) && !small(cur[1])) || (big(cur[1]) && !big(cur[0]) && !small(cur[0])) {
-						return
-					}
-				}
-				if len(cur) > 0 {
-					idx++
-					if r.Mine(idx) {
-						f, reused, spare := c53RunPoolCase(cfg, cur)
-						res.evals++
-						if reused > 0 {
-							res.reuse++
-						}
-						if spare > 0 {
-							res.spare++
-						}
-						switch {
-						case f.class != "":
-							if !reported[f.class] {
-								reported[f.class] = true
-								res.viols = append(res.viols, c53PCase{Pool: cfg.name, Steps: append([]c53PStep(nil), cur...)})
-								res.vdesc = append(res.vdesc, f)
-							}
-						case reused > 0 && cfg.zero:
-							res.outcomes["pools:dirty-memory-reused-and-handed-out-zeroed"]++
-						case reused > 0:
-							res.outcomes["pools:dirty-pool-reuse(len/cap only)"]++
-						default:
-							res.outcomes["pools:fresh-memory"]++
-						}
-					}
-				}
-				if len(cur) == L {
-					return
-				}
-				for _, a := range alpha {
-					rec(append(cur, a))
-				}
-			}
-			rec(nil)
 		}()
 	}
+	for _, j := range jobs {
+		ch <- j
+	}
+	close(ch)
 	wg.Wait()
 	var evals, nontriv int64
 	perCfg := map[string]any{}
